@@ -15,6 +15,8 @@
            one passed: no fallback to the enclosing namespace for a null-namespace record), other children inherit; a reference to a null-namespace name from inside a namespace is written ".name"
   REQUIRED every key the parser requires for a kind / logical type is written on every path of its arm; every "type"
            entry is written together with the logical type (after the logicalType entry, or where it is None)
+  shared   c07.resolution_rules (what the regenerated text parses back to); the cycle guard's release resets the node
+           unconditionally (c19)
 It does NOT decide isomorphism of the re-parsed graph for every built graph.
 """
 from ..lib import *
